@@ -77,6 +77,7 @@ def build(repo):
     step = G("proof { lemma_concat_step(function_buffer@, VERIF_K as int - 1, !output_bin); assert(overwrite(f_contents(&new_file), f_pos(&new_file), Seq::<char>::empty()) =~= f_contents(&new_file)); }")
     rules = [
         Rule("R9", "File :: options ( )", "file_options ( )", count=1, why="std::fs::OpenOptions builder (assumed std contract)"),
+        Rule("R9", "BufWriter :: new ( $$e )", "$$e", why="std::io::BufWriter: the same bytes reach the file in the same order once it is flushed / dropped (buffering is not modelled)"),
         Rule("R1", "let iter = function_buffer . iter ( ) ;", "", why="slice iterator bound to a name"),
         Rule("R9", "writing_pb . wrap_iter ( iter )", "function_buffer", why="progress-bar iterator wrapper yields the same items in order"),
         Rule("R1", "for $x in iter {", "for $x in function_buffer {", why="slice iterator bound to a name"),
